@@ -18,6 +18,9 @@ checks={
  "C08": dict(category="exploration", design="§3 C08", technique="exhaustive enumeration of (source, previous destination) relations (relative length x first differing offset class x block-boundary sizes) as full -y transfers on the real code; comparison block scaled through an overlay-made variable and at its real value",
    text="Every (relative length, first differing offset class, size at a block boundary) combination x protocol {2,3,4} x base64/binary x direction is transferred with -y; the destination must equal the source byte for byte, siblings must be untouched and the payload written must equal size minus the proven common prefix computed by a reference.",
    note="Scaled tier: the same code with kPrefixHashStep turned into a variable (rule R11) and set to 64; the real-constant tier (10 MiB blocks, 10-25 MiB files) always runs with it."),
+ "C09": dict(category="exploration", design="§3 C09", technique="exhaustive enumeration of hostile peer-supplied names (component lists up to length 2/3 over a traversal alphabet) x modes x protocols x receiving roles as full transfers by the real sender fed doctored records; before/after snapshot of everything outside the destination",
+   text="Every component list over {a, .., ., empty, /, /abs, a/b, a\\b, ../x, ../victim.txt, victim.txt, 300-byte name} is sent as JSON path list, as plain name and as archive entry header by the real sendFiles (doctored records) to the real receiving role on either side, with and without -y and directory mode, protocols 1-4; nothing outside the destination may be created, modified or removed.",
+   note="Upload sender = body of TrzszFilter.uploadFiles re-assembled from product functions. Backslash is not a separator on Linux (the fix also rejects os.PathSeparator). Symlinks inside the destination are not in the alphabet."),
 }
 not_yet="check not built yet in this session (framework under construction; see DESIGN.md §7 order)"
 m={"version":1,
